@@ -10,15 +10,18 @@ from ..common import pmap_proc, tlc_retry, write_ndjson, sh, SPEC
 
 LEVEL = "model_checking"
 OFFM, ONM = "*INDENT-OFF*", "*INDENT-ON*"
+LEXT = {"C": ".c", "CPP": ".cpp", "PAWN": ".pawn", "JAVA": ".java", "CS": ".cs", "D": ".d"}
 RAW = ["\t x  =  [ (  {  %d   ", "  @@ $$ garbage `  %d", "    indented   raw %d\t", "if(a){b;}else   {c ;}  // %d  ", "\"unterminated %d",
        "   a=b+c  ;    /* in region %d */   ", "\t\t\ttabs\tinside\t%d", "#define  X%d   ( 1+2 )", "}  ) ] %d", "   'q %d", "  café  %d  "]
 
 
-def render(kinds, rng, style=0, final_nl=True):
+def render(kinds, rng, style=0, final_nl=True, lang="C"):
     """kinds -> (text, [line texts])"""
     out = []
     for i, k in enumerate(kinds):
-        if k == "code":
+        if k == "code" and lang == "PAWN":
+            t = ["new   a%d=%d", "  f%d( )", "x%d  =  y+ %d"][(i + style) % 3] % ((i, i) if (i + style) % 3 != 1 else (i,))
+        elif k == "code":
             t = ["int   a%d=%d ;", "  void f%d( void ) ;", "x%d  =  y+ %d;"][(i + style) % 3] % ((i, i) if (i + style) % 3 != 1 else (i,))
         elif k in ("raw",):
             t = rng.choice(RAW) % i
@@ -108,16 +111,17 @@ def split(text):
 
 
 def _job(a):
-    unc, tmp, i, kinds, cfgtext, style, final_nl, seed, wrap = a
+    unc, tmp, i, kinds, cfgtext, style, final_nl, seed, wrap, lang = a
     rng = random.Random(seed)
-    text, ls = render(kinds, rng, style, final_nl)
+    wrap = wrap and lang != "PAWN"
+    text, ls = render(kinds, rng, style, final_nl, lang)
     if wrap:
         text = "void w(void)\n{\n" + text + ("" if text.endswith("\n") else "\n") + "}\n"
-    src = os.path.join(tmp, "r%d.c" % i)
+    src = os.path.join(tmp, "r%d%s" % (i, LEXT[lang]))
     cfg = os.path.join(tmp, "r%d.cfg" % i)
     obs.write(src, text.encode("utf-8"))
     obs.write(cfg, cfgtext)
-    rc, so, se, evs = obs.run(unc, ["-c", cfg, "-q", "-l", "C", "-f", src], cwd=tmp, trace=os.path.join(tmp, "r%d.nd" % i), timeout=20)
+    rc, so, se, evs = obs.run(unc, ["-c", cfg, "-q", "-l", lang, "-f", src], cwd=tmp, trace=os.path.join(tmp, "r%d.nd" % i), timeout=20)
     res = []
     rid = "file|%d" % i
     ev = {"e": "File", "id": rid, "rc": rc, "kinds": kinds, "regs": [], "nregs_out": 0, "ign": [], "ign_expected": []}
@@ -139,7 +143,7 @@ def _job(a):
             kinds2.append(k)
             if k == "raw":
                 kinds2.append("raw")
-        text2, ls2 = render(kinds2, rng2, style, final_nl)
+        text2, ls2 = render(kinds2, rng2, style, final_nl, lang)
         # keep the non-region lines textually identical: re-render them from the first rendering
         it = iter([l for l, k in zip(ls, kinds) if k not in ("raw",)])
         ls2b = []
@@ -148,9 +152,9 @@ def _job(a):
         text2 = "\n".join(ls2b) + ("\n" if final_nl else "")
         if wrap:
             text2 = "void w(void)\n{\n" + text2 + ("" if text2.endswith("\n") else "\n") + "}\n"
-        src2 = os.path.join(tmp, "r%db.c" % i)
+        src2 = os.path.join(tmp, "r%db%s" % (i, LEXT[lang]))
         obs.write(src2, text2.encode("utf-8"))
-        rc2, so2, se2 = sh([unc, "-c", cfg, "-q", "-l", "C", "-f", src2], cwd=tmp, timeout=20)
+        rc2, so2, se2 = sh([unc, "-c", cfg, "-q", "-l", lang, "-f", src2], cwd=tmp, timeout=20)
         os.unlink(src2)
         if rc2 == 0:
             o1, o2 = outside(split(obs.decode(so))), outside(split(obs.decode(so2)))
@@ -158,7 +162,7 @@ def _job(a):
                         "ids": [hashlib.sha1("\n".join(o1).encode()).hexdigest()[:12], hashlib.sha1("\n".join(o2).encode()).hexdigest()[:12]]})
     os.unlink(src)
     os.unlink(cfg)
-    return res, (kinds, cfgtext, style, final_nl, seed, wrap)
+    return res, (kinds, cfgtext, style, final_nl, seed, wrap, lang)
 
 
 def run(ctx):
@@ -202,7 +206,8 @@ def run(ctx):
     tmp = ctx.work.sub("c07")
     cfgs = [""] + [cfggen.random_any_config(ctx.rng, unc) for _ in range(11 if quick else 60)]
     cfgs += ["cmt_convert_tab_to_spaces=true\ncmt_indent_multi=true\n", "nl_max=1\neat_blanks_after_open_brace=true\neat_blanks_before_close_brace=true\n",
-             "align_var_def_span=3\nalign_assign_span=2\nindent_columns=2\nindent_with_tabs=0\n", "newlines=crlf\ncode_width=20\n"]
+             "align_var_def_span=3\nalign_assign_span=2\nindent_columns=2\nindent_with_tabs=0\n", "newlines=crlf\ncode_width=20\n",
+             "mod_pawn_semicolon=true\n"]
     jobs = []
     allseq = gen + extra
     if quick:
@@ -210,7 +215,12 @@ def run(ctx):
         allseq = gen[:500] + extra
     for i, kinds in enumerate(allseq):
         for cfgt in ctx.rng.sample(cfgs, 2 if quick else 4):
-            jobs.append((unc, tmp, len(jobs), kinds, cfgt, ctx.rng.randint(0, 3), ctx.rng.random() < 0.75, ctx.rng.randrange(1 << 30), ctx.rng.random() < 0.3))
+            lang = ctx.rng.choice(["C", "C", "C", "PAWN", "CPP", "JAVA", "CS", "D"])
+            if lang == "PAWN" and ctx.rng.random() < 0.5:
+                cfgt = cfgt + "mod_pawn_semicolon=true\n"
+            if lang in ("JAVA",) and any(k in ("pasm", "pend", "asm", "endasm") for k in kinds):
+                lang = "C"
+            jobs.append((unc, tmp, len(jobs), kinds, cfgt, ctx.rng.randint(0, 3), ctx.rng.random() < 0.75, ctx.rng.randrange(1 << 30), ctx.rng.random() < 0.3, lang))
     res = pmap_proc(_job, jobs, nproc=14)
     evs = [e for r_, meta in res for e in r_]
     metas = {}
@@ -257,7 +267,7 @@ def run(ctx):
                     if bad_regs and all(edge_blank_only(rg_) for rg_ in bad_regs):
                         sig = "RegionVerbatim|blank-lines-at-region-edge"
                 ctx.violation(sig, "%s violated for kinds %s: %s" % (b, meta[0], json.dumps(e.get("regs", e.get("ids")))[:600]),
-                              {"kind": "c07", "kinds": meta[0], "cfg_text": meta[1], "style": meta[2], "final_nl": meta[3], "seed": meta[4], "wrap": meta[5]})
+                              {"kind": "c07", "kinds": meta[0], "cfg_text": meta[1], "style": meta[2], "final_nl": meta[3], "seed": meta[4], "wrap": meta[5], "lang": meta[6]})
             for dn in rep["drift"]:
                 ctx.drift.append({"module": "Region", "kind": dn, "id": rep["id"], "kinds": meta[0]})
     files = [e for e in evs if e["e"] == "File" and e["rc"] == 0 and e["regs"]]
@@ -271,7 +281,7 @@ def run(ctx):
     if files:
         ctx.sample({"kinds": files[0]["kinds"], "regions": files[0]["regs"]})
     ctx.assumptions += ["alarms only for the documented usage: markers in comments that start their line, '#pragma asm' / '#asm' on their own line",
-                        "C language rendering; the tokenizer code for regions is language independent"]
+                        "rendered in C, C++, Java, C#, D and Pawn (the only language-specific interaction found is Pawn's virtual semicolons)"]
 
 
 def replay(path):
@@ -284,7 +294,7 @@ def replay(path):
     unc = build("hooks")
     d = tempfile.mkdtemp(prefix="c07replay")
     try:
-        res, meta = _job((unc, d, 0, r["kinds"], r["cfg_text"], r["style"], r["final_nl"], r["seed"], r["wrap"]))
+        res, meta = _job((unc, d, 0, r["kinds"], r["cfg_text"], r["style"], r["final_nl"], r["seed"], r["wrap"], r.get("lang", "C")))
         bad = False
         for e in res:
             if e["e"] == "File":
